@@ -50,7 +50,12 @@ struct CtlState {
 struct Ctl {
     st: Mutex<CtlState>,
     cv: Condvar,
+    /// honour the switch points added later (check-then-act windows inside maintenance); off by default so that
+    /// the schedules recorded before they existed keep their meaning
+    ext: bool,
 }
+
+const EXT_SITES: [&str; 4] = ["upsert:checked", "expire_ao:before_remove", "expire_wo:before_remove", "evict:before_remove"];
 
 impl Ctl {
     /// Picks the next thread to run among those waiting at a point. Must hold the lock.
@@ -143,6 +148,9 @@ impl Scheduler for Ctl {
         if tid == usize::MAX {
             return; // not a scheduled thread (controller / quiescence phase)
         }
+        if !self.ext && EXT_SITES.contains(&site) {
+            return;
+        }
         {
             let st = self.st.lock().unwrap();
             if st.livelock {
@@ -159,6 +167,7 @@ pub struct ConcRunner {
     schedule: Vec<usize>,
     sparse: HashMap<u64, usize>,
     budget: u64,
+    ext: bool,
 }
 
 impl ConcRunner {
@@ -169,6 +178,7 @@ impl ConcRunner {
             schedule: Vec::new(),
             sparse: HashMap::new(),
             budget: kv.get("budget").map(|b| b.parse().unwrap()).unwrap_or(20000),
+            ext: kv.get("ext").map(|b| *b == "1").unwrap_or(false),
         }
     }
 
@@ -197,6 +207,7 @@ impl ConcRunner {
                 lin: HashMap::new(),
             }),
             cv: Condvar::new(),
+            ext: self.ext,
         });
         sched::install(Some(ctl.clone() as Arc<dyn Scheduler>));
         let records: Arc<Mutex<Vec<String>>> = Arc::new(Mutex::new(Vec::new()));
